@@ -19,13 +19,11 @@ theorem text_parser_total (legacy : Bool) (pyInt : Str → Option Int) (pyFloat 
   PromVerif.Props.C14Text.text_parser_total legacy pyInt pyFloat input
 
 /-- the OpenMetrics parser: families or ValueError, for every input and every choice of the number parameters and
-regex classes (with `float("NaN")` a NaN and no whitespace `\d` character) — `_partial`: outside the two classes that
-still escape at HEAD 6c551bc (`C14OM.witness_typeError_check_histogram`, `C14OM.witness_overflowError_timestamp`) -/
-theorem om_parser_total_partial (P : Params) (hnan : NaNLiteral P) (hd : DigitsNotSpace P) (text : Str)
-    (h : PromVerif.Props.C14OM.OutsideFindings P text = true) :
+regex classes (with the interpreter facts `float("NaN")` is a NaN and no `\d` character is whitespace) -/
+theorem om_parser_total (P : Params) (hnan : NaNLiteral P) (hd : DigitsNotSpace P) (text : Str) :
     (∃ fams, omParse P text = .ok fams) ∨ omParse P text = .error .valueError := by
   cases hp : omParse P text with
   | ok fams => exact Or.inl ⟨fams, rfl⟩
-  | error e => right; rw [PromVerif.Props.C14OM.om_parser_total_partial P hnan hd text h e hp]
+  | error e => right; rw [PromVerif.Props.C14OM.om_parser_total P hnan hd text e hp]
 
 end PromVerif.Props.C14
